@@ -27,6 +27,8 @@ class Sym:
         s.mem = dict(self.mem)
         s.counter = self.counter
         s.calls = list(self.calls)
+        if hasattr(self, "assumed"):
+            s.assumed = dict(self.assumed)
         return s
 
     # ---- memory
